@@ -92,6 +92,7 @@ def run(chk):
     chk.mark("default-registry-traces")
 
     isolation(chk, model, rng)
+    redefinition_after_use(chk)
     return chk.finish(
         rule="cases = behaviours of MC_Pint executed sparsely (only logged queries ask) with the final probe vector compared with the "
              "specification; random sparse histories with fresh-registry twins validated by Trace_Pint; histories on the bundled registry "
@@ -269,6 +270,26 @@ def drive_default(chk, rng, ntraces, length):
         chk.case(("default-history", t, chk.seed), nontrivial=True)
     chk.samples.append({"default_registry_history": [{k: v for k, v in e.items() if not k.startswith("_")} for e in events[0][:6]]})
     return events
+
+
+def redefinition_after_use(chk):
+    """a unit defined again with define() (on_redefinition = warn, the default): the answers are those of a registry built with the final
+    definitions, whatever was asked before the second definition"""
+    import logging
+    import pint
+    logging.getLogger("pint").setLevel(logging.ERROR)
+    lines = ["a = [A]", "b = 2 a", "c = 5 b"]
+    for asked_before in (False, True):
+        chk.case(("redefinition-after-use", asked_before), nontrivial=True)
+        u = pint.UnitRegistry(lines, non_int_type=F)
+        if asked_before:
+            u.Quantity(F(1), "b").to("a"), u.Quantity(F(1), "c").to("a"), u.get_root_units("c")
+        u.define("b = 3 a")
+        fresh = pint.UnitRegistry(["a = [A]", "b = 3 a", "c = 5 b"], non_int_type=F)
+        q = lambda r: [str(r.Quantity(F(1), "b").to("a").magnitude), str(r.Quantity(F(1), "c").to("a").magnitude), str(r.get_root_units("c")[0]), str(r.Quantity(F(1), "c").to_root_units().magnitude)]
+        got, want = q(u), q(fresh)
+        if got != want:
+            chk.diverge({"clause": "stale-after-redefinition", "asked_before": asked_before}, {"lines": lines, "redefinition": "b = 3 a", "observed": got, "fresh": want})
 
 
 def validate_hist(chk, traces):
